@@ -310,6 +310,60 @@ def q1l(ms: int, ml: int, ma: int, mo: int, which: int, ea: bool) -> str:
     return q.run(_q1l, (ms, ml, ma, mo, which, ea))
 
 
+# ---------------------------------------------------------------- Q1f the cached file system answers what os.stat answers, in any lookup order
+FPATHS = ["run1/a.txt", "run10/a.txt", "run1.tar", "run1_x/y.txt", "out", "output/z.txt", "run1", "output", "run10/sub/b.txt", "ru"]
+
+
+def _q1f(e0, e1, e2, e3, e4, e5, e8, m, i, j, k):
+    """Files whose paths are string prefixes of one another (directory run1 next to run10, file out next to directory
+    output/): existence of each symbolic, one modification time symbolic.  Three lookups (any three paths of the
+    catalogue, symbolic selectors) through ONE CachedFilesystem: every answer is what the file system says."""
+    n = len(FPATHS)
+    if not (q.in_range(i, n) and q.in_range(j, n) and q.in_range(k, n)):
+        return q.SKIP
+    if "i" in q.SHARD and i != q.SHARD["i"]:
+        return q.SKIP
+    if q.SHARD.get("two") and k != j:
+        return q.SKIP        # quick: two distinct lookups (the third repeats the second)
+    ex = [e0, e1, e2, e3, e4, e5, False, False, e8, False]
+    w = vfs.VFS()
+    w.dirs.add("/vfs/p")
+    present = []
+    for idx in (0, 1, 2, 3, 4, 5, 8):
+        if ex[idx]:
+            w.add(P + FPATHS[idx], m)
+            present.append(idx)
+    vfs.install(w)
+    try:
+        fs = CachedFilesystem()
+        for sel in (i, j, k):
+            rel = q.pick(FPATHS, sel)
+            path = P + rel
+            truth = path in w.files or w.is_dir(path)
+            got = fs.exists(path)
+            if got != truth:
+                return "exists(%r) = %s after looking up %s; on disk: %s (files present: %s)" % (rel, got, [FPATHS[x] for x in (i, j, k)], truth, [FPATHS[x] for x in present])
+            if truth and path in w.files:
+                if fs.changed_at(path) != m:
+                    return "changed_at(%r) differs from the file's modification time" % rel
+            if not truth:
+                try:
+                    fs.changed_at(path)
+                    return "changed_at(%r) answers for a file that does not exist" % rel
+                except FileNotFoundError:
+                    pass
+        return ""
+    finally:
+        vfs.uninstall()
+
+
+def q1f(e0: bool, e1: bool, e2: bool, e3: bool, e4: bool, e5: bool, e8: bool, m: int, i: int, j: int, k: int) -> str:
+    """
+    post: _ == ""
+    """
+    return q.run(_q1f, (e0, e1, e2, e3, e4, e5, e8, m, i, j, k))
+
+
 # ---------------------------------------------------------------- Q1d snapshot of the file system
 def _q1d(i_first, i_later, o_first, o_later, eo):
     """os.stat returns a different mtime on every later call (files change while gwf runs):
@@ -371,6 +425,8 @@ QUERIES = [
      "bound": "chain src->A->B over the VFS; symbolic mtimes/existence; backend state unknown/completed per target; 4 hash situations"},
     {"name": "Q1l", "fn": q1l, "shards": [{}], "timeout": 300,
      "bound": "1 target, 1 input, 1 output; the input and/or the output is a symbolic link (incl. a dangling one) whose own modification time is a further symbolic int: only the time of the file referred to counts"},
+    {"name": "Q1f", "fn": q1f, "shards": {"quick": [{"i": 0, "two": 1}, {"i": 4, "two": 1}, {"i": 6, "two": 1}], "thorough": [{"i": x} for x in range(len(FPATHS))]}, "timeout": {"quick": 600, "thorough": 2400},
+     "bound": "catalogue of %d paths that are string prefixes of one another (directory run1 beside run10, file out beside directory output/, ...), existence of 7 files symbolic, lookups in any order through one CachedFilesystem (quick: two lookups, the first from 3 of the paths; thorough: three lookups over all)" % len(FPATHS)},
     {"name": "Q1d", "fn": q1d, "shards": [{}], "timeout": 120,
      "bound": "1 input, 1 output, two should_run calls on one CachedFilesystem, os.stat answering differently from the 2nd call on"},
 ]
